@@ -25,7 +25,7 @@ CO_ASSUME = [
 
 PROPS = {
     "C01": dict(monitor="C01", proj="C01", modules=["C01", "C01seq", "C01g", "C01nest", "C01live"], monitors=["C01", "LV"], cfgs=ALL3, quick=900, thorough=12000,
-                gens=[(ALL_FIXED, "drain", 0.5), (["join", "try_join", "race", "race_ok", "merge", "zip", "chain"], "exh", 0.4), (["nest"], "random", 0.35), (["nest"], "stuck", 0.1), (ALL_FIXED, "random", 1.0), (GROUPS, "random", 0.4), (GROUPS, "refill", 0.3), (CONC, "stuck", 0.3),
+                gens=[(ALL_FIXED, "drain", 0.5), (GROUPS, "drain", 0.3), (["join", "try_join", "race", "race_ok", "merge", "zip", "chain"], "exh", 0.4), (["nest"], "random", 0.35), (["nest"], "stuck", 0.1), (ALL_FIXED, "random", 1.0), (GROUPS, "random", 0.4), (GROUPS, "refill", 0.3), (CONC, "stuck", 0.3),
                       (["join", "try_join", "merge", "zip", "race", "chain"], "big", 0.05),
                       (["join", "try_join", "merge", "zip"], "waves", 0.08)],
                 assumptions=COMMON_ASSUME),
@@ -42,7 +42,7 @@ PROPS = {
                       (["join", "try_join", "merge", "zip"], "big", 0.05)],
                 assumptions=COMMON_ASSUME),
     "C20": dict(monitors=["C20", "LV"], monitor="C20", proj="C20", modules=["C20", "C20g"], cfgs=ALL3, quick=900, thorough=12000,
-                gens=[(CONC, "drain", 0.5), (["join", "try_join", "race", "race_ok", "merge", "zip"], "exh", 0.4), (CONC, "random", 1.0), (GROUPS, "random", 0.5), (GROUPS, "refill", 0.5), (CONC + GROUPS, "stuck", 0.6)],
+                gens=[(CONC, "drain", 0.5), (GROUPS, "drain", 0.3), (["join", "try_join", "race", "race_ok", "merge", "zip"], "exh", 0.4), (CONC, "random", 1.0), (GROUPS, "random", 0.5), (GROUPS, "refill", 0.5), (CONC + GROUPS, "stuck", 0.6)],
                 assumptions=COMMON_ASSUME),
     "C04": dict(monitors=["C04", "NP", "LV"], monitor="C04", modules=["C04", "C01"], proj="FUN", cfgs=ALL3, quick=1500, thorough=20000,
                 gens=[(["join"], "drain", 0.5), (["join"], "exh", 1.0), (["join"], "random", 1.0), (["join"], "stuck", 0.3), (["join"], "panic", 0.2),
@@ -81,14 +81,14 @@ PROPS = {
     "C17": dict(monitors=["C17", "NP", "LV"], monitor="C17", modules=["C17", "C01"], proj="FUN", cfgs=ALL3, quick=2500, thorough=30000,
                 gens=[(["merge"], "drain", 0.3), (["merge"], "exh", 0.5), (["merge"], "fair", 1.0), (["merge"], "random", 0.5), (["merge"], "stuck", 0.2)],
                 assumptions=COMMON_ASSUME),
-    "C11": dict(monitors=["C11", "NP"], monitor="C11", modules=["C11", "C01g"], proj="GRP", cfgs=["std", "alloc"], quick=3000, thorough=40000,
+    "C11": dict(monitors=["C11", "NP", "LV"], monitor="C11", modules=["C11", "C01g"], proj="GRP", cfgs=["std", "alloc"], quick=3000, thorough=40000,
                 gens=[(["fgroup"], "random", 1.0), (["fgroup"], "big", 0.5), (["fgroup"], "stuck", 0.3),
-                      (["fgroup"], "panic", 0.2), (["fgroup"], "refill", 0.5)],
+                      (["fgroup"], "panic", 0.2), (["fgroup"], "refill", 0.5), (["fgroup"], "drain", 0.5)],
                 assumptions=COMMON_ASSUME + ["every inserted future is a new object (Case.insertsFresh) of the right "
                                              "kind (Case.kindOk)"]),
-    "C12": dict(monitors=["C12", "NP"], monitor="C12", modules=["C12", "C01g"], proj="GRP", cfgs=["std", "alloc"], quick=3000, thorough=40000,
+    "C12": dict(monitors=["C12", "NP", "LV"], monitor="C12", modules=["C12", "C01g"], proj="GRP", cfgs=["std", "alloc"], quick=3000, thorough=40000,
                 gens=[(["sgroup"], "random", 1.0), (["sgroup"], "big", 0.5), (["sgroup"], "stuck", 0.3),
-                      (["sgroup"], "panic", 0.2), (["sgroup"], "refill", 0.5)],
+                      (["sgroup"], "panic", 0.2), (["sgroup"], "refill", 0.5), (["sgroup"], "drain", 0.5)],
                 assumptions=COMMON_ASSUME + ["every inserted stream is a new object (Case.insertsFresh) of the right "
                                              "kind (Case.kindOk)"]),
     "C13": dict(monitor="C13", proj="CO", cfgs=["std", "alloc"], quick=4000, thorough=60000,
